@@ -44,7 +44,7 @@ from vgi_rpc.rpc._wire import _send_request
 
 PROPERTY = "C40"
 LEVEL = "exploration"
-QUICK_RUNS = 1200
+QUICK_RUNS = 1000
 THOROUGH_RUNS = 120_000
 QUICK_BUDGET_S = 100
 THOROUGH_BUDGET_S = 1500
